@@ -331,6 +331,15 @@ def part_positions(sh, res):
                 if judge(res, 'bare', text, got, pos, {'backend': 'table-direct', 'header': hdr, 'query': text}):
                     res.feat('direct_mode_bare')
                     res.nontrivial += 1
+                # the same through the dataframe front-end with normalize_column_names=False
+                try:
+                    import pandas as pd
+                    o = rb.query_pandas_dataframe(text, pd.DataFrame(ROWS, columns=hdr), None, None, False)
+                    gotp = {'records': [list(r) for r in o.itertuples(index=False)], 'error': None}
+                except Exception as e:
+                    gotp = {'records': None, 'error': drive.classify_py(e)}
+                if judge(res, 'bare', text, gotp, pos, {'backend': 'pandas-direct', 'header': hdr, 'query': text}):
+                    res.feat('direct_mode_bare_pandas')
     # direct mode through rbql-js as well, and direct mode with a JOIN: a bare name present in both tables is ambiguous (parsing error) iff the query mentions it
     djs, dmeta = [], []
     for n1 in idn:
@@ -652,7 +661,7 @@ def main(tier, seed):
         assumptions=['names containing an a.ident / b.ident token are excluded (the quantifier)', 'the name inside a["..."] is written with the canonical escapes (backslash, quote, \\n, \\r, \\t)'],
         extra={'names': len(names), 'backend_pairs': npairs},
         min_features={'table_dq': 50000, 'table_sq': 50000, 'table_attr': 500, 'csv_dq': 300, 'pandas_dq': 300, 'sqlite_dq': 300, 'csv_join': 300, 'direct_mode_bare': 50, 'triples': 100, 'header_not_data': 20,
-                      'with_overrides_opposite_flag': 50, 'variable_like_names': 300, 'fstring_names': 40, 'js_table_dq': 50000, 'js_table_sq': 50000, 'js_with_override': 100, 'position_update': 100, 'js_position_except': 100, 'js_direct_mode_bare': 50, 'direct_mode_join_ambiguous': 20, 'direct_mode_join_ok': 10, 'js_direct_mode_join': 30, 'js_position_update': 100, 'join_on_ab': 5000, 'join_on_ba': 5000, 'js_join_on_ba': 5000, 'join_on_spelling_dq_sq': 1000})
+                      'with_overrides_opposite_flag': 50, 'variable_like_names': 300, 'fstring_names': 40, 'js_table_dq': 50000, 'js_table_sq': 50000, 'js_with_override': 100, 'position_update': 100, 'js_position_except': 100, 'js_direct_mode_bare': 50, 'direct_mode_bare_pandas': 50, 'direct_mode_join_ambiguous': 20, 'direct_mode_join_ok': 10, 'js_direct_mode_join': 30, 'js_position_update': 100, 'join_on_ab': 5000, 'join_on_ba': 5000, 'js_join_on_ba': 5000, 'join_on_spelling_dq_sq': 1000})
 
 
 def replay(rep):
